@@ -341,19 +341,31 @@ fn alphabet(kind: usize, names: &[&str], rich: bool) -> Vec<Op> {
     let mut ops = vec![];
     let ids: Vec<String> = names.iter().map(|n| id_for(kind, n)).collect();
     let unknown = id_for(kind, "zz");
-    let mut anchors: Vec<Option<String>> = vec![None];
-    anchors.extend(ids.iter().cloned().map(Some));
-    anchors.push(Some(unknown.clone()));
-    anchors.push(Some(dot_id(kind).to_owned()));
+    // anchors: every pair over {none, ids}; the unknown and the server-default anchor alone, next
+    // to the first id on either side, and together
+    let mut good: Vec<Option<String>> = vec![None];
+    good.extend(ids.iter().cloned().map(Some));
+    let mut pairs: Vec<(Option<String>, Option<String>)> = vec![];
+    for a in &good {
+        for b in &good {
+            pairs.push((a.clone(), b.clone()));
+        }
+    }
+    let dot = Some(dot_id(kind).to_owned());
+    for odd in [Some(unknown.clone()), dot.clone()] {
+        for other in [None, Some(ids[0].clone())] {
+            pairs.push((odd.clone(), other.clone()));
+            pairs.push((other, odd.clone()));
+        }
+    }
+    pairs.push((Some(unknown.clone()), dot));
     let mut subjects = ids.clone();
     if rich {
         subjects.push(id_for(kind, "n"));
     }
     for id in &subjects {
-        for a in &anchors {
-            for b in &anchors {
-                ops.push(ins(kind, id, 1, 1, a.as_deref(), b.as_deref()));
-            }
+        for (a, b) in &pairs {
+            ops.push(ins(kind, id, 1, 1, a.as_deref(), b.as_deref()));
         }
     }
     // ids insert must refuse (only expressible for string-keyed kinds)
@@ -464,6 +476,28 @@ pub fn run(tier: &str, seed: u64, em: &mut Emitter) {
                     let mut ops = pre.clone();
                     ops.push(op.clone());
                     emit(em, "systematic-state", start, &ops);
+                }
+            }
+        }
+    }
+
+    // Systematic 1b: every order of four rules, then every (re-)insertion with anchors among them:
+    // the moved rule in every relative position to one or two anchors.
+    let four = ["a", "b", "c", "d"];
+    for (start, kind) in [(0i128, 0usize), (1, 0), (0, 1)] {
+        let ids: Vec<String> = four.iter().map(|n| id_for(kind, n)).collect();
+        let mut anchors: Vec<Option<&str>> = vec![None];
+        anchors.extend(ids.iter().map(|i| Some(i.as_str())));
+        let new_id = id_for(kind, "n");
+        for arr in arrangements(&four).into_iter().filter(|a| a.len() == 4) {
+            let pre = setup(kind, &arr);
+            for subject in ids.iter().chain([&new_id]) {
+                for a in &anchors {
+                    for b in &anchors {
+                        let mut ops = pre.clone();
+                        ops.push(ins(kind, subject, 1, 1, *a, *b));
+                        emit(em, "systematic-perm", start, &ops);
+                    }
                 }
             }
         }
